@@ -55,6 +55,45 @@ Proof. unfold dhas. destruct (dget k d); split; intros; try congruence; auto. Qe
 Lemma dhas_false {V} k (d : dict V) : dhas k d = false <-> dget k d = None.
 Proof. unfold dhas. destruct (dget k d); split; intros; try congruence; auto. Qed.
 
+Lemma dget_None_keys {V} k (d : dict V) : dget k d = None <-> ~ In k (map fst d).
+Proof.
+  induction d as [|[a va] r IH]; cbn; [tauto|].
+  destruct (N.eqb_spec k a); [split; [discriminate|intros H; exfalso; apply H; now left]|].
+  rewrite IH. split; [intros H [E|E]; [congruence|contradiction]|tauto].
+Qed.
+Lemma ddel_keys {V} k (d : dict V) : NoDup (map fst d) -> NoDup (map fst (ddel k d)).
+Proof.
+  induction d as [|[a va] r IH]; cbn; [auto|]. intros H. inversion H; subst.
+  destruct (N.eqb_spec k a); cbn; [auto|]. constructor; [|auto].
+  intros Hin. apply H2. apply in_map_iff in Hin. destruct Hin as ((a' & v') & E & Hin). cbn in E. subst a'.
+  unfold ddel in Hin. apply filter_In in Hin. destruct Hin as [Hin _]. apply in_map_iff. exists (a, v'). auto.
+Qed.
+Lemma dset_keys_eq {V} k (v : V) d :
+  map fst (dset k v d) = if dhas k d then map fst d else map fst d ++ [k].
+Proof.
+  unfold dhas. induction d as [|[a va] r IH]; cbn; [reflexivity|].
+  destruct (N.eqb_spec k a); cbn; [now subst|]. rewrite IH. destruct (dget k r); reflexivity.
+Qed.
+Lemma NoDup_snoc' {A} (x : A) s : NoDup s -> ~ In x s -> NoDup (s ++ [x]).
+Proof.
+  induction 1 as [|y r Hy Hr IH]; cbn; intros Hx.
+  - constructor; [tauto|constructor].
+  - constructor.
+    + rewrite in_app_iff. cbn. intros [H|[H|[]]]; [contradiction|subst; tauto].
+    + apply IH. tauto.
+Qed.
+Lemma dset_keys {V} k (v : V) d : NoDup (map fst d) -> NoDup (map fst (dset k v d)).
+Proof.
+  intros H. rewrite dset_keys_eq. destruct (dhas k d) eqn:E; [exact H|].
+  apply NoDup_snoc'; [exact H|]. apply dget_None_keys. now apply dhas_false.
+Qed.
+Lemma In_dget_nodup {V} k (v : V) d : NoDup (map fst d) -> In (k, v) d -> dget k d = Some v.
+Proof.
+  induction d as [|[a va] r IH]; cbn; [tauto|]. intros H [E|Hin]; inversion H; subst.
+  - inversion E; subst. now rewrite N.eqb_refl.
+  - destruct (N.eqb_spec k a); [|auto]. subst a. exfalso. apply H2. apply in_map_iff. exists (k, v). auto.
+Qed.
+
 (* ------------------------------------------------------------------ set laws *)
 Lemma mem_In x s : mem x s = true <-> In x s.
 Proof.
